@@ -112,20 +112,20 @@ static int print_i(void (*printchar_handler)(void *d, int c),
                    int base)
 {
     char buff[PRINT_I_BUFF_SZ], *str, *end, *prefix;
-    int pc, ch, len, prefix_len, zero_count, space_count, letter_base;
+    int pc, ch, len, prefix_len, zero_count, space_count, letter_base, nonzero;
 
     str = end = &buff[0] + sizeof buff / sizeof buff[0] - 1;
     *end = '\0';
     prefix = is_signed && ((long long int)u < 0)         ? (u = -u, "-")
              : is_signed && (ops & OPS_FLAG_WITH_SIGN)   ? "+"
              : is_signed && (ops & OPS_FLAG_EXTRA_SPACE) ? " "
-             : (base == 8) && (ops & OPS_FLAG_WITH_SPEC) ? "0"
              : (base == 16) && (ops & OPS_FLAG_WITH_SPEC)
                  ? ops & OPS_SPEC_UPPER_CASE ? "0X" : "0x"
                  : "";
     pc = 0;
     prefix_len = (int)strlen(prefix);
     letter_base = ops & OPS_SPEC_UPPER_CASE ? 'A' : 'a';
+    nonzero = u != 0;
 
     do
     {
@@ -143,6 +143,10 @@ static int print_i(void (*printchar_handler)(void *d, int c),
                                                                      : 0) -
         len - prefix_len;
     zero_count = MAX(zero_count, 0);
+    /* alternate octal form: one more zero unless the first digit is a zero
+     * already */
+    if ((base == 8) && (ops & OPS_FLAG_WITH_SPEC) && !zero_count && nonzero)
+        zero_count = 1;
     space_count = width - len - prefix_len - zero_count;
     space_count = MAX(space_count, 0);
 
